@@ -1,6 +1,7 @@
 package main
 
 import (
+	"bytes"
 	"encoding/binary"
 	"math"
 )
@@ -431,6 +432,25 @@ func genC12(r *Rng, tier string) []Case {
 				str := asciiBytes(r, n)
 				str[pos] = bad
 				dec([]string{"text", "uint"}, append(append(canonHead(0x60, uint64(n)), str...), 0x05))
+			}
+		}
+	}
+	// long text whose multi-byte characters straddle the 4 KiB / 32 KiB / 64 KiB marks a chunked validator would cut at
+	for _, mark := range []int{4096, 32768, 65536} {
+		for _, ch := range []string{"\u00e9", "\u20ac", "\U0001F600"} {
+			for back := 1; back < len(ch); back++ {
+				str := append(append(bytes.Repeat([]byte{'a'}, mark-back), ch...), "tail"...)
+				dec([]string{"text", "uint"}, append(append(canonHead(0x60, uint64(len(str))), str...), 0x05))
+			}
+		}
+	}
+	// reserved additional information 28..30 (and 31) in front of 16 / 32 / 64 / 100 bytes
+	for _, major := range []byte{0x00, 0x40, 0x60, 0x80, 0xa0} {
+		for ai := byte(28); ai <= 31; ai++ {
+			for _, n := range []int{15, 16, 17, 32, 33, 64, 65, 100} {
+				for _, k := range decKinds {
+					dec([]string{k, "uint"}, append([]byte{major | ai}, asciiBytes(r, n)...))
+				}
 			}
 		}
 	}
